@@ -52,6 +52,13 @@ class BasinWorld(World):
             if isinstance(o, Table) and name in ("operator()", "flat", "operator[]", "at"):
                 key = tuple(it.rv(it.eval(a, frame)) for a in call.get("a", []))
                 return ElemRef(o, key)
+            if isinstance(o, frozenset):        # the base-level set
+                if name == "size":
+                    return len(o)
+                if name == "empty":
+                    return len(o) == 0
+                if name == "count":
+                    return 1 if it.rv(it.eval(call["a"][0], frame)) in o else 0
         return NOT_HANDLED
 
 
@@ -82,7 +89,8 @@ def run(db, chk):
         nbad = 0
         for n in range(1, nmax + 1):
             # flags per node: (masked, own_receiver, base_level); masked nodes are own receivers
-            opts = [(True, True, False), (False, True, False), (False, True, True), (False, False, False)]
+            opts = [(True, True, False), (True, True, True), (False, True, False), (False, True, True),
+                    (False, False, False)]
             for combo in itertools.product(opts, repeat=n):
                 unm = [c for c in combo if not c[0]]
                 if unm and not unm[0][1]:
@@ -96,7 +104,8 @@ def run(db, chk):
                     rec[(order[i], 0)] = order[i] if combo[i][1] else order[0]
                 basins = Table("m_basins")
                 this = Obj(model.GRAPH_IMPL, {"m_outlets": PyVec([777, 778]), "m_pits": PyVec([779]),
-                                               "m_basins": basins, "m_receivers": rec})
+                                               "m_basins": basins, "m_receivers": rec,
+                                               "m_base_levels": frozenset(base), "m_mask_initialized": any(masked.values())})
                 w = BasinWorld(order, masked, base)
                 it = Interp(w)
                 # members the model does not name start from their in-class initialiser (a freshly
